@@ -234,10 +234,43 @@ def special_shapes(r):
     return lp
 
 
-FAMILIES = ["random", "feasible", "degenerate", "infeasible_margin", "face_only", "unbounded", "special", "klee_minty", "beale"]
+def boxed(r):
+    """small LPs dominated by boxed variables (often starting at their upper bound: |up| <= |lo|), free variables,
+    equalities and range rows with +-1 / small coefficients: bound flips and dual bound-flipping ratio tests"""
+    m, n = r.randint(1, 4), r.randint(2, 5)
+    lp = _mk(m, n, r.random() < .5)
+    for j in range(n):
+        k = r.random()
+        if k < .6:
+            lo = F(r.randint(-6, 0)); up = F(r.randint(0, 4))
+            if r.random() < .6 and abs(up) > abs(lo):
+                lo, up = -up, -lo if lo != 0 else F(0)
+                if lo > up:
+                    lo, up = up, lo
+            lp["lo"][j], lp["up"][j] = lo, up
+        elif k < .8:
+            lp["lo"][j], lp["up"][j] = NINF, INF
+        else:
+            lp["lo"][j], lp["up"][j] = F(0), INF
+        lp["obj"][j] = F(r.randint(-3, 3))
+    for i in range(m):
+        for j in range(n):
+            if r.random() < .65:
+                lp["A"][i].append((j, F(r.choice([-2, -1, -1, 1, 1, 2]))))
+        s = r.choice("LGERR")
+        lp["sense"][i] = s
+        lp["rhs"][i] = F(r.randint(-6, 8))
+        if s == "R":
+            lp["range"][i] = F(r.randint(0, 9))
+    return lp
+
+
+FAMILIES = ["boxed", "random", "feasible", "degenerate", "infeasible_margin", "face_only", "unbounded", "special", "klee_minty", "beale"]
 
 
 def family(name, r):
+    if name == "boxed":
+        return boxed(r)
     if name == "random":
         return random_lp(r)
     if name == "feasible":
